@@ -58,7 +58,7 @@ def search_perm_dependence(rec, seed):
                 A = np.zeros_like(d["A"])
                 runc.call_kernel(fn, A, d["w"], d["c"], d["x"], d["e"], np.array([p0, p1], dtype=np.uint8))
                 rel = float(np.max(np.abs(A - ref))) / scale
-                if rel > 1e-9 and (best is None or rel > best["relative_difference"]):
+                if not (rel <= 1e-9) and (best is None or rel > best["relative_difference"]):
                     best = {"perm": [p0, p1], "entity": d["e_used"], "relative_difference": rel,
                             "A_perm00": ref.tolist()[:8], "A_perm": A.tolist()[:8]}
     return best
